@@ -4,7 +4,10 @@ import (
 	"context"
 	"errors"
 	"fmt"
+	"io"
 	"math/rand/v2"
+	"net"
+	"net/http"
 	"os"
 	"runtime"
 	"sort"
@@ -28,7 +31,9 @@ import (
 //	C18.sh <signals> <outcomes>
 //	    signals: comma-separated; <n> = syscall.Signal(n), o<n> = a foreign os.Signal value
 //	    (own dynamic type, prints like signal n); "-" = none.  outcomes: one letter per
-//	    registered service in registration order: n nil, e error, p panic, w waits for the
+//	    registered service in registration order: n nil, e error, p panic, c an error wrapping
+//	    a standard-library sentinel (net.ErrClosed, context.Canceled, …), C that sentinel
+//	    itself, P a panic with it, w waits for the
 //	    shutdown deadline and returns nil, W waits for it and returns ctx.Err(); "-" = none.
 //	    Output: "blocked" | "ret status=<s> calls=<i,j,…>".
 //
@@ -167,6 +172,14 @@ func evalC18SH(sigs []c18Sig, outs string) Result {
 					return ctx.Err()
 				case 'e':
 					return injErr(100 + i)
+				case 'c':
+					// an error that wraps a sentinel of the standard library (net.ErrClosed,
+					// os.ErrClosed, context.Canceled, …): still an error
+					return c18Sentinel{injErr: injErr(100 + i), s: c18Sentinels[i%len(c18Sentinels)]}
+				case 'C':
+					return c18Sentinels[i%len(c18Sentinels)]
+				case 'P':
+					panic(c18Sentinels[i%len(c18Sentinels)])
 				case 'p':
 					panic(fmt.Sprintf("service %d panics in Shutdown", i))
 				}
@@ -268,7 +281,7 @@ func evalC18SH(sigs []c18Sig, outs string) Result {
 	// the property's own oracle
 	direct := "ok"
 	n := len(outs)
-	allNil := strings.Count(outs, "n")+strings.Count(outs, "w") == n
+	allNil := strings.Count(outs, "n")+strings.Count(outs, "w") == n // c, C, P, e, p, W are failures
 	var want []int
 	for i := n - 1; i >= 0; i-- {
 		want = append(want, i)
@@ -469,10 +482,30 @@ func (r *c18RW) Refresh(ctx context.Context) error {
 		if code == 0 {
 			return nil
 		}
-		return injErr(code)
+		return c18MkErr(code)
 	case <-time.After(2 * c18Bound):
 		return errors.New("C18 harness: nobody completed this Refresh")
 	}
+}
+
+// c18Sentinel: an error that is identified by its injErr code and ALSO wraps a well-known
+// sentinel of the standard library (codes 900…): an error stays an error whatever it wraps.
+type c18Sentinel struct {
+	injErr
+	s error
+}
+
+func (e c18Sentinel) Unwrap() []error { return []error{e.injErr, e.s} }
+
+var c18Sentinels = []error{net.ErrClosed, os.ErrClosed, context.Canceled, context.DeadlineExceeded, io.EOF, http.ErrServerClosed,
+	errors.ErrUnsupported, io.ErrUnexpectedEOF, http.ErrAbortHandler}
+
+// c18MkErr: the injected error for a code; codes from 900 on wrap the sentinel (code-900).
+func c18MkErr(code int) error {
+	if code >= 900 && code-900 < len(c18Sentinels) {
+		return c18Sentinel{injErr: injErr(code), s: c18Sentinels[code-900]}
+	}
+	return injErr(code)
 }
 
 func c18ErrCode(err error) int {
@@ -1052,7 +1085,7 @@ func genC18SH(rng *rand.Rand) string {
 		case 1: // exactly one fault, placed below
 			outs[i] = 'n'
 		default:
-			outs[i] = "nnnneep"[rng.IntN(7)]
+			outs[i] = "nnnneepnnnneepcCP"[rng.IntN(17)]
 		}
 	}
 	if mode == 1 && n > 0 {
@@ -1125,7 +1158,7 @@ func genC18RW(rng *rand.Rand, tier string) string {
 				loop = 'r'
 			}
 		case "l":
-			e += strconv.Itoa(pick(rng, 0, 0, 1, 2, 7))
+			e += strconv.Itoa(pick(rng, 0, 0, 1, 2, 7, 900+rng.IntN(len(c18Sentinels))))
 			if loop == 'r' {
 				if closed && immAt(k) {
 					risky = true
@@ -1133,7 +1166,7 @@ func genC18RW(rng *rand.Rand, tier string) string {
 				top()
 			}
 		case "f":
-			e += strconv.Itoa(pick(rng, 0, 0, 3, 9))
+			e += strconv.Itoa(pick(rng, 0, 0, 3, 9, 900+rng.IntN(len(c18Sentinels))))
 			if fin == 'r' {
 				fin = 'd'
 			}
